@@ -690,7 +690,14 @@ type zsite struct {
 	Why    string
 }
 
+var zoneStrings = false
+
 func isParserElemSlice(t types.Type) bool {
+	if zoneStrings {
+		if b, ok := types.Unalias(t).Underlying().(*types.Basic); ok && b.Kind() == types.String {
+			return true
+		}
+	}
 	sl, ok := types.Unalias(t).Underlying().(*types.Slice)
 	if !ok {
 		return false
@@ -1084,6 +1091,9 @@ func (c *Ctx) runArgIndex(r *Report, rule string, pkgs func(string) bool, except
 
 func init() {
 	dumpers["argindex"] = func(c *Ctx, parts []string) {
+		if len(parts) > 1 && parts[1] == "strings" {
+			zoneStrings = true
+		}
 		r := newReport("dump")
 		c.runArgIndex(r, "abort.argindex", func(string) bool { return true }, nil)
 		nok := 0
